@@ -215,7 +215,13 @@ func (c *Cluster) restartFromDisk(n *SimNode) {
 		if n.wipeExpected {
 			key = "torn-first-write-after-clean-reopen-wipes-value-log"
 		}
-		c.violate("C11", "restart", key, "node %d: restart with bootstrap failed: %v", n.idx, err)
+		prop := "C11"
+		if c.cfg.Profile == "C08" && !n.wipeExpected {
+			// after hostile network input the node can no longer be restarted
+			prop = "C08"
+			key = "cannot-restart-after-hostile-input"
+		}
+		c.violate(prop, "restart", key, "node %d: restart with bootstrap failed: %v", n.idx, err)
 		n.crashed = true
 		n.dead = true
 		n.node = nil
